@@ -88,6 +88,9 @@ type Replica struct {
 	// LastCommit is the seen commit of the last committed block (the next
 	// block's LastCommit).
 	LastCommit *types.Commit
+	// ExtraKeys are further validator keys SignCommit may use (candidates that
+	// can be elected into the validator set).
+	ExtraKeys []simnode.ValKey
 }
 
 // OpenReplica assembles a replica over disk (which must hold the installed
@@ -241,6 +244,11 @@ func (r *Replica) SignCommit(block *types.Block, parts *types.PartSet) (*types.C
 			if bytes.Equal(r.Spec.Vals[k].Address(), addr) {
 				key = &r.Spec.Vals[k]
 				break
+			}
+		}
+		for k := range r.ExtraKeys {
+			if key == nil && bytes.Equal(r.ExtraKeys[k].Address(), addr) {
+				key = &r.ExtraKeys[k]
 			}
 		}
 		if key == nil {
